@@ -824,6 +824,43 @@ pub fn cmd_sjis(a: &Args) {
 			o => sink.report(&viol("normalize", "map", o.kind(), o.detail()), &|| json!({"block": hi})),
 		}
 	});
+	// (4b) the map is per character: alone, first, last, doubled, between ASCII letters -- every character of the
+	// model's ranges and their neighbours, ASCII, and a stride through all scalar values
+	let mut cs: Vec<u32> = (0x20u32..0x80).collect();
+	for r in &ranges.ranges {
+		cs.extend((r[0] as u32).saturating_sub(2)..=(r[1] as u32 + 2));
+	}
+	cs.extend((0..0x110000u32).step_by(251));
+	cs.extend([0x2019u32, 0x201D, 0x3000, 0xFF01, 0xFF5E, 0x1F600, 0x12019, 0x13000]);
+	par_for(cs.len(), threads, |k| {
+		let c = cs[k];
+		let (ch, w) = match (char::from_u32(c), char::from_u32(fix(c))) {
+			(Some(a), Some(b)) => (a, b),
+			_ => return,
+		};
+		for (s0, want) in [
+			(format!("{}", ch), format!("{}", w)),
+			(format!("a{}", ch), format!("a{}", w)),
+			(format!("{}a", ch), format!("{}a", w)),
+			(format!("{}{}", ch, ch), format!("{}{}", w, w)),
+			(format!("a{}b{} ", ch, ch), format!("a{}b{} ", w, w)),
+			(format!(" {}", ch), format!(" {}", w)),
+		] {
+			sink.evals.fetch_add(1, Ordering::Relaxed);
+			match guard_plain(|| MeleeString(s0.clone()).to_normalized()) {
+				Outcome::Ok(n) => {
+					if n != want {
+						sink.report(&viol("normalize", "per_character", "mismatch", format!("{:?} normalised to {:?}, the per-character map gives {:?}", s0, n, want)), &|| json!({"s": s0}));
+						return;
+					}
+				}
+				o => {
+					sink.report(&viol("normalize", "per_character", o.kind(), o.detail()), &|| json!({"s": s0}));
+					return;
+				}
+			}
+		}
+	});
 	sink.summary(json!({}));
 }
 
